@@ -9,9 +9,9 @@ from vlib import core
 
 PROPS = "Props/C20.v"
 THEOREMS = ["C20_user_wins", "C20_user_value_survives_loads", "C20_dependent_defaults_see_user_value",
-            "C20_unknown_rejected", "C20_validate_exact", "C20_no_leak", "C20_defaults_for_own_D",
-            "C20_caller_dict_untouched", "real_files_dependencies_ok", "real_files_depends_on_D_exact",
-            "C20_real_files", "C20_reserved_name_refuted"]
+            "C20_unknown_rejected", "C20_reserved_name_rejected", "C20_validate_exact", "C20_no_leak",
+            "C20_defaults_for_own_D", "C20_caller_dict_untouched", "real_files_dependencies_ok",
+            "real_files_depends_on_D_exact", "C20_real_files", "C20_real_files_unknown_rejected"]
 TRANSLATORS = ["options"]
 LEVEL = "proof"
 RULE = ("T1: random op sequences (Init/Load/Validate over 1-3 Options objects, with and without passing D, 1-3 synthetic ini "
@@ -34,7 +34,7 @@ TRUSTED = [
 ASSUMPTIONS = [
     "observation point is BADS.options right after construction; optimize() re-writes some options of ITS OWN instance "
     "(also user-supplied ones) — reported under coverage.observations, not gated on (DESIGN C20 scope note)",
-    "user dict keys are distinct strings other than the reserved name 'useroptions' (that name is the refuted clause / known finding)",
+    "user dict keys are distinct strings (a Python dict); the reserved name 'useroptions' is rejected like any unknown name (finding repaired in /repo 7763e26)",
     "None / 0 for stobads and None for specify_target_noise are normalised to False by the constructor (reported as observation)",
     "every load passes its own D (BADS always does; the model exhibits the leak otherwise: Example C20_leak_if_D_not_passed)",
 ]
@@ -198,47 +198,39 @@ def _t2(ctx, broken):
 
 
 def _witness(ctx, broken):
-    """Replay the witness of C20_reserved_name_refuted on the real code (DESIGN section 7)."""
+    """Regression witness of the repaired finding (Example C20_reserved_name_witness) on the real code:
+    options={'useroptions': {'n_basis'}} must raise ValueError and leave the caller's set alone; handing
+    A.options to a second construction must not touch A."""
+    import numpy as np
+    from pybads.bads.bads import BADS
     sc = dict(callers=[[[C.RESERVED, ["set", ["n_basis"]]]]], g0=None, np_seed=1,
               ops=[dict(op="construct", i=0, D=2, u=0, prob=dict(D=2, x0="2d", bounds="2d", box="plain"))])
     with warnings.catch_warnings():
         warnings.simplefilter("ignore")
         res = C.t2_run(sc, {}, want_codes=False)
-    hit = [w for k, w in res["findings"] if k == "reserved-name-useroptions-accepted"]
-    ok = bool(hit) and res["steps"][0][1] == "Done" and 0 in res["live"] and \
-        "n_basis" not in dict(C.raw_items(res["live"][0].bads.options))
-    second = _witness_reuse()
-    ctx.oblige("refutation-witness:reserved-name", "correspondence", ok,
-               ("options={'useroptions': {'n_basis'}} accepted, caller's set extended, n_basis missing; " + second) if ok else
-               "witness of C20_reserved_name_refuted no longer reproduces on the checked tree: " + str(res["steps"][0][1]))
-    if ok:
+        hit = [w for k, w in res["findings"] if k == "reserved-name-useroptions-accepted"]
+        mk = lambda D, o: BADS(C.Target("det"), np.zeros((1, D)), -5 * np.ones(D), 5 * np.ones(D), -np.ones(D), np.ones(D), options=o)  # noqa: E731
+        a = mk(2, {"max_iter": 7})
+        before = sorted(dict.__getitem__(a.options, C.RESERVED))
+        try:
+            mk(3, a.options)
+            second = "accepted"
+        except ValueError:
+            second = "ValueError"
+        except Exception as ex:
+            second = type(ex).__name__
+        a_same = sorted(dict.__getitem__(a.options, C.RESERVED)) == before
+    ok = not hit and res["steps"][0][1] == "ValueError" and a_same
+    ctx.oblige("regression-witness:reserved-name", "correspondence", ok,
+               f"options={{'useroptions': {{'n_basis'}}}} -> {res['steps'][0][1]}; BADS(..., options=A.options) -> {second}, "
+               f"A.options['useroptions'] unchanged: {a_same}")
+    if not ok:
+        what = hit[0] if hit else (f"BADS(..., options=A.options) -> {second}; A.options['useroptions'] changed from {before}"
+                                   if not a_same else f"reserved name raised {res['steps'][0][1]} instead of ValueError")
         ctx.__dict__.setdefault("_c20_reported", set()).add("reserved-name-useroptions-accepted")
-        ctx.violate("reserved-name-useroptions-accepted",
-                    "BADS(..., options={'useroptions': {'n_basis'}}) is accepted although no option file defines 'useroptions'; "
-                    "the caller's set becomes {'n_basis','useroptions'} and options has no 'n_basis'",
+        ctx.violate("reserved-name-useroptions-accepted", what,
                     dict(kind="bads_history", key="reserved-name-useroptions-accepted", scenarios=[sc]))
-    else:
-        broken.append(("refutation-witness:reserved-name",
-                       "C20_reserved_name_refuted is proved about the model but its witness no longer reproduces on the code"))
-
-
-def _witness_reuse():
-    """Natural trigger of the same defect: handing instance A's options object to a second construction."""
-    import numpy as np
-    from pybads.bads.bads import BADS
-    try:
-        with warnings.catch_warnings():
-            warnings.simplefilter("ignore")
-            mk = lambda D, o: BADS(C.Target("det"), np.zeros((1, D)), -5 * np.ones(D), 5 * np.ones(D), -np.ones(D), np.ones(D), options=o)  # noqa: E731
-            a = mk(2, {"max_iter": 7})
-            before = sorted(dict.__getitem__(a.options, C.RESERVED))
-            b = mk(3, a.options)
-            after = dict.__getitem__(a.options, C.RESERVED)
-            same = after is dict.__getitem__(b.options, C.RESERVED)
-        return (f"BADS(..., options=A.options) (A: D=2, B: D=3): A.options['useroptions'] {before} -> {len(after)} names, "
-                f"shared with B: {same}")
-    except Exception as ex:
-        return f"second witness (options=A.options) raised {ex!r}"
+        broken.append(("regression-witness:reserved-name", "the reserved option name is no longer rejected (concrete input found)"))
 
 
 def tie(ctx, broken):
